@@ -133,6 +133,9 @@ fn key_pair_family() -> Vec<(Node, bool)> {
         map(vec![(seq(vec![p("1"), p("2")]), p("v"))]),
         map(vec![(p("m"), map(vec![(p("i"), seq(vec![p("1")]))]))]),
         seq(vec![seq(vec![]), seq(vec![seq(vec![])])]),
+        // tagged scalars nested in the key (the tag is part of the key's identity at every depth)
+        seq(vec![Node::Scalar { text: "1".into(), sty: Sty::Plain, tag: Some("!!str".into()), anchor: None }, p("2")]),
+        map(vec![(p("m"), seq(vec![Node::Scalar { text: "t".into(), sty: Sty::Plain, tag: Some("!!str".into()), anchor: None }]))]),
     ];
     fn leaves(n: &Node) -> usize {
         match n {
@@ -148,6 +151,22 @@ fn key_pair_family() -> Vec<(Node, bool)> {
             Node::Scalar { text, sty, tag, anchor } => {
                 *idx -= 1;
                 if *idx == -1 { Node::Scalar { text: format!("{text}9"), sty: *sty, tag: tag.clone(), anchor: anchor.clone() } } else { n.clone() }
+            }
+            other => other.clone(),
+        }
+    }
+    /// leaf number `idx` gets the tag `!!str` if it has none, and loses its tag if it has one
+    fn retag_leaf(n: &Node, idx: &mut isize) -> Node {
+        match n {
+            Node::Seq { items, flow, tag, anchor } => Node::Seq { items: items.iter().map(|i| retag_leaf(i, idx)).collect(), flow: *flow, tag: tag.clone(), anchor: anchor.clone() },
+            Node::Map { entries, flow, anchor } => Node::Map { entries: entries.iter().map(|(k, v)| (retag_leaf(k, idx), retag_leaf(v, idx))).collect(), flow: *flow, anchor: anchor.clone() },
+            Node::Scalar { text, sty, tag, anchor } => {
+                *idx -= 1;
+                if *idx == -1 {
+                    Node::Scalar { text: text.clone(), sty: *sty, tag: if tag.is_some() { None } else { Some("!!str".into()) }, anchor: anchor.clone() }
+                } else {
+                    n.clone()
+                }
             }
             other => other.clone(),
         }
@@ -168,6 +187,10 @@ fn key_pair_family() -> Vec<(Node, bool)> {
         for i in 0..leaves(b) {
             let mut idx = i as isize;
             let other = change_leaf(b, &mut idx);
+            out.push((map(vec![(b.clone(), p("first")), (other, q("second")), (p("z"), p("0"))]), false));
+            // the same leaf with the same text but a different tag: not the same key either
+            let mut idx = i as isize;
+            let other = retag_leaf(b, &mut idx);
             out.push((map(vec![(b.clone(), p("first")), (other, q("second")), (p("z"), p("0"))]), false));
         }
         // an element more / a different container kind
